@@ -71,8 +71,25 @@ func HarnessC10RoundTrip() {
 	}
 	m := NewMsg(WithEncoding(menc))
 	_ = m.FromFormat("Al Ice", "a@b.example")
-	_ = m.To("d@e.example")
-	_ = m.Cc("c@e.example")
+	// display names: none / with a comma (quoted-string) / non-ASCII with a comma
+	names := 0
+	if shape == 0 {
+		names = svPick("recipient-names", 3) // (recipient headers do not depend on the body shape)
+	}
+	toName, ccName := "", ""
+	switch names {
+	case 0:
+		_ = m.To("d@e.example")
+		_ = m.Cc("c@e.example")
+	case 1:
+		toName, ccName = "Doe, Jane", "Roe, Richard Q."
+	default:
+		toName, ccName = "M\u00fcller, J\u00f6rg", "plain name"
+	}
+	if names > 0 {
+		_ = m.AddToFormat(toName, "d@e.example")
+		_ = m.AddCcFormat(ccName, "c@e.example")
+	}
 	m.Subject(string(subject))
 	m.SetDateWithValue(hxFixedTime)
 	m.SetMessageIDWithValue("c10@b.example")
@@ -149,6 +166,9 @@ func HarnessC10RoundTrip() {
 	svAssert(len(to) == 1 && to[0].Address == "d@e.example", tag+"C10 To differs after the round trip")
 	cc := p.GetCc()
 	svAssert(len(cc) == 1 && cc[0].Address == "c@e.example", tag+"C10 Cc differs after the round trip")
+	if len(cc) == 1 {
+		svAssert(cc[0].Name == ccName, tag+"C10 Cc display name differs after the round trip")
+	}
 	dv := p.GetGenHeader(HeaderDate)
 	svAssert(len(dv) == 1 && dv[0] == m.GetGenHeader(HeaderDate)[0], tag+"C10 Date differs after the round trip")
 	parts := p.GetParts()
